@@ -459,7 +459,7 @@ func runDaemonPerm(t *testing.T, rc *RunCtx, prop string) {
 		op := []string{"Sign", "Sign beacon attestation", "Sign beacon proposal", "Access account", "Lock account", "Unlock account"}[ch.Pick(6, 0)]
 		epoch[a.KName]++
 		ep := epoch[a.KName]
-		byKey := ch.Pick(3, 0) == 2
+		byKey := ch.Pick(3, 0) == 2 && !a.DupKey
 		served := false
 		var callErr error
 		switch op {
